@@ -120,6 +120,9 @@ impl Conn {
 }
 
 fn finish(id: u32) {
+    if world::fired(&format!("c{}.login_done", id)).is_none() {
+        world::emit(&format!("c{}.login_done", id));
+    }
     let seq = world::emit(&format!("c{}.done", id));
     let mut h = HIST.lock();
     if let Some(c) = h.clients.get_mut(&id) {
@@ -245,8 +248,13 @@ pub async fn run_client(spec: ClientSpec) {
                                 None // "none": say nothing
                             };
                             if let Some(b) = to_send {
-                                if a == "correct" || a.starts_with("hash:") {
-                                    HIST.lock().clients.get_mut(&id).unwrap().password_sent = Some(b[5..].to_vec());
+                                {
+                                    let mut h = HIST.lock();
+                                    let c = h.clients.get_mut(&id).unwrap();
+                                    c.password_msg = Some(b.clone());
+                                    if a == "correct" || a.starts_with("hash:") {
+                                        c.password_sent = Some(b[5..].to_vec());
+                                    }
                                 }
                                 if conn.s.write_all(&b).await.is_err() {
                                     break;
@@ -283,6 +291,7 @@ pub async fn run_client(spec: ClientSpec) {
         }
     }
     HIST.lock().clients.get_mut(&id).unwrap().auth_result = auth_result.clone();
+    world::emit(&format!("c{}.login_done", id));
     if ready {
         world::emit(&format!("c{}.ready", id));
     } else {
